@@ -106,7 +106,11 @@ class FakeS3:
                     outer.log.append(("DELETE", self._key(), 204))
                 self._reply(204)
 
-        self.srv = ThreadingHTTPServer(("127.0.0.1", 0), H)
+        class Srv(ThreadingHTTPServer):
+            # the default listen backlog of socketserver is 5: a build that uploads a directory output of 300 files opens that many
+            # connections at once and the kernel resets what does not fit -- a fault of THIS server, not one the history asked for
+            request_queue_size = 4096
+        self.srv = Srv(("127.0.0.1", 0), H)
         self.srv.daemon_threads = True
         self.port = self.srv.server_address[1]
         self.thread = threading.Thread(target=self.srv.serve_forever, kwargs={"poll_interval": 0.05}, daemon=True)
